@@ -3,9 +3,18 @@ All ties between the regenerated Python bodies (`Generated/PyBodies<Cxx>.lean`, 
 models. The theorems live in one file per property so that a broken tie breaks only the property whose model
 transliterates that body (`harness/foundation/pybody.py: BY_PROPERTY`); this file only collects them.
 -/
+import Mahotas.Proofs.PyBodyTiesC01
 import Mahotas.Proofs.PyBodyTiesC02
 import Mahotas.Proofs.PyBodyTiesC06
 import Mahotas.Proofs.PyBodyTiesC14
+import Mahotas.Proofs.PyBodyTiesC13
+import Mahotas.Proofs.PyBodyTiesC15
 import Mahotas.Proofs.PyBodyTiesC16
+import Mahotas.Proofs.PyBodyTiesC16b
+import Mahotas.Proofs.PyBodyTiesC17
+import Mahotas.Proofs.PyBodyTiesC18
+import Mahotas.Proofs.PyBodyTiesC18b
 import Mahotas.Proofs.PyBodyTiesC16Rc
+import Mahotas.Proofs.PyBodyTiesC19
 import Mahotas.Proofs.PyBodyTiesC20
+import Mahotas.Proofs.PyBodyTiesC20b
